@@ -6,6 +6,7 @@
 -/
 import WR.C10.Lemmas
 import WR.C10.LemmasStack
+import WR.C10.Examples
 namespace WR.Props.C10
 open WR.C10
 
@@ -181,5 +182,70 @@ example : (0 : Rat) ≤ 40 ∧ (∀ m : Rat, (some 60 : Option Rat) = some m →
 theorem box_sizing (cbW : Rat) (cbH : MF) (s : Style) (hw : 0 ≤ cbW) (hh : ∀ h, cbH = .val h → 0 ≤ h)
     (v : s.Valid) : resolvePercentages cbW cbH s = specResolve cbW cbH s :=
   resolvePercentages_eq_spec cbW cbH s hw hh v
+
+/-! ## vertical: stacking and margin collapsing (CSS 2.1 §8.3.1, §10.6.3)
+
+  `StackOK` / `stackViols` (WR/C10/Spec.lean) is the declarative statement, the one the driver also
+  evaluates on the implementation's numbers: for every box of the tree
+    * first in-flow child: its top border edge coincides with the parent's when no border/padding
+      separates them (parent/first-child margins adjoining), otherwise it lies below the parent's
+      content edge by the collapse of its adjoining margins;
+    * following siblings: top border edge = bottom border edge of the previous in-flow sibling +
+      collapse (largest positive + most negative) of all margins adjoining between them, boxes whose
+      own margins collapse through contributing all of theirs — document order, and no overlap
+      whenever that collapsed margin is ≥ 0;
+    * an auto-height box ends at the bottom border edge of its last in-flow child (plus the child's
+      collapsed bottom margins only if a bottom border/padding keeps them inside), clamped by
+      min/max-height; a fixed height is the clamped computed height.
+
+  FULL statement, FALSE on the current code (known findings KF10-2, KF10-3, KF10-4):
+
+    theorem stack_spec (r cs) (hroot : r.isRoot = true) :
+      StackOK (vtree (.mk r cs) (vbox 0 [] (.mk r cs)).tree)
+
+  Proved: the statement for every tree in which no box collapses through (`solid`: each box without
+  children has a height, a min-height, a border or a padding) — all depths, all widths of trees, all
+  rational margins including negative ones.
+-/
+
+/-- every stacking statement holds in every subtree, wherever it is laid out -/
+theorem stack_spec_subtree (R : RBox) (hs : solid R = true) (y0 : Rat) (adjIn : List Rat) :
+    stackViols (vtree R (vbox y0 adjIn R).tree) = [] :=
+  (inv_solid R hs y0 adjIn).2.2.2.2.2
+
+/-- `stack_spec` for documents without collapsing-through boxes -/
+theorem stack_spec_partial (r : RStyle) (cs : List RBox) (hroot : r.isRoot = true) (hs : solid (.mk r cs) = true) :
+    StackOK (vtree (.mk r cs) (vbox 0 [] (.mk r cs)).tree) :=
+  ⟨stack_spec_subtree _ hs 0 [], root_top r cs hroot hs⟩
+
+/-- the same for a whole document as the driver lays it out (`layoutDoc`) -/
+theorem stack_spec_doc_partial (pageW pageH : Rat) (root : Box)
+    (hs : solid (resolveBox pageW (.val pageH) 0 true root) = true) :
+    StackOK (vtree (resolveBox pageW (.val pageH) 0 true root) (layoutDoc pageW pageH root)) := by
+  cases root with
+  | mk s cs =>
+    simp only [resolveBox] at hs ⊢
+    exact stack_spec_partial _ _ rfl hs
+
+-- non-vacuity: a three-level document with positive and negative margins is `solid`
+example : solid (resolveBox 400 (.val 100000) 0 true docSolid) = true := by decide +kernel
+
+/-- where the top border edge of a box lies: below the position handed down by its parent by the
+    collapse of ALL margins adjoining its top margin (those collected so far and those of its
+    first-child chain) -/
+theorem top_edge_partial (R : RBox) (hs : solid R = true) (y0 : Rat) (adjIn : List Rat) :
+    (vtree R (vbox y0 adjIn R).tree).v.top =
+      y0 + (maxPos (adjIn ++ topGroup (vtree R (vbox y0 adjIn R).tree)) +
+            minNeg (adjIn ++ topGroup (vtree R (vbox y0 adjIn R).tree))) := by
+  rw [(inv_solid R hs y0 adjIn).2.2.2.1, collapse_eq]
+
+/-- negation witnesses of the full statement: the three recorded deviations, on the model that the
+    correspondence run ties to the code (and replayed against the real layout, see known findings) -/
+theorem stack_spec_fails_leading_through : ¬ StackOK (judged docLeadingThrough) := by decide +kernel
+theorem stack_spec_fails_nested_through : ¬ StackOK (judged docNestedThrough) := by decide +kernel
+theorem stack_spec_fails_negative_through : ¬ StackOK (judged docNegativeThrough) := by decide +kernel
+
+/-- … while the judge accepts the solid example (the model output, evaluated) -/
+theorem stack_spec_example : StackOK (judged docSolid) := by decide +kernel
 
 end WR.Props.C10
